@@ -186,6 +186,13 @@ def _goto_cc(u, bdir):
 
 def _instrument(u, gb, bdir):
     cur = gb
+    if not (u.enforce or u.replace or u.loop_contracts):
+        # keep only what the harness reaches, so obligations of other harnesses in the same file
+        # are not listed (and cannot be misjudged) for this unit
+        out = os.path.join(bdir, u.name + ".1.gb")
+        rc, so, se, dt = sh(["goto-instrument", "--drop-unused-functions", cur, out], timeout=300)
+        if rc == 0 and os.path.exists(out):
+            cur = out
     if u.enforce or u.replace or u.loop_contracts:
         out = os.path.join(bdir, u.name + ".1.gb")
         cmd = ["goto-instrument", "--dfcc", u.entry]
@@ -304,7 +311,8 @@ def _run_cbmc_direct(u, gb):
 
 # z3 'som' route for polynomial identities -----------------------------------
 Z3SOM_TACTIC = ("(check-sat-using (then (using-params simplify :som true :som_blowup 1000000 :flat true) "
-                "solve-eqs (using-params simplify :som true :som_blowup 1000000) smt))\n")
+                "solve-eqs (using-params simplify :som true :som_blowup 1000000) cofactor-term-ite "
+                "(using-params simplify :som true :som_blowup 1000000) smt))\n")
 
 
 def _run_cbmc_z3som(u, gb, bdir):
@@ -365,6 +373,7 @@ def _run_cbmc_z3som(u, gb, bdir):
                 continue
             raise Undecided("no smt file for %s: %s" % (name, (so + se)[-800:]))
         txt = open(smt).read()
+        txt = _normalise_fp_zero_guards(txt, u, bdir)
         txt = re.sub(r"\(check-sat\)", "", txt)
         txt = re.sub(r"\(get-value [^\n]*\n", "", txt)
         txt = re.sub(r"\(get-model\)", "", txt)
@@ -378,8 +387,19 @@ def _run_cbmc_z3som(u, gb, bdir):
         if first == "unsat":
             rec.update(status="SUCCESS", backend="z3-new som")
         elif first == "sat":
-            # ask for the model of the harness inputs
-            open(smt, "a").write("(get-model)\n")
+            # guard against a degenerate formula (obligation unreachable / settled by symex): give the
+            # plain SAT run a longer chance to contradict z3 before the refutation is accepted
+            rc0, so0, se0, dt0 = sh(cmd0, timeout=60, mem_gb=u.mem_gb or 12)
+            if rc0 != -9:
+                res0, _, _ = _parse_json(so0)
+                hit = [r for r in (res0 or []) if r.get("property") == name]
+                if hit and hit[0].get("status") == "SUCCESS":
+                    hit[0]["backend"] = "sat"
+                    results.append(hit[0])
+                    continue
+            # ask for the values of the harness inputs
+            syms = sorted(set(re.findall(r"\(declare-fun (\|[^|]*::in_[^|]*\|) \(\) \(_ BitVec \d+\)\)", txt)))
+            open(smt, "a").write("(get-value (%s))\n" % " ".join(syms) if syms else "(get-model)\n")
             rc, so3, se3, dt3 = sh(cmd2, timeout=(u.timeout or 120) + 10, mem_gb=u.mem_gb or 12)
             rec.update(status="FAILURE", backend="z3-new som", model=so3[:200000])
         else:
@@ -392,13 +412,60 @@ def _run_cbmc_z3som(u, gb, bdir):
     return results
 
 
+_GUARD_LEMMAS = {}
+
+
+def _normalise_fp_zero_guards(txt, u, bdir):
+    """Code such as Matrix44::determinant tests 'x != 0.' on the element type; on the integer
+    instantiation cbmc bit-blasts that into (ieee_float_notequal (typecast_uN->f64 X) 0), which hides
+    the ring structure from the som rewriter.  Each distinct guard shape is replaced by (not (= X 0))
+    AFTER the equivalence 'for every X: guard(X) == (X != 0)' has been discharged by z3 on the very
+    function definitions cbmc put in this file (a machine-checked rewriting step, not an assumption)."""
+    pat = re.compile(r"\((float_bv\.ieee_float_(notequal|equal)_f(\d+)_(\d+)->b) \((float_bv\.floatbv_typecast_([us])(\d+)->f\d+_\d+) (\|[^|]*\|) \(_ bv0 32\)\) \(_ bv0 (\d+)\)\)")
+    kinds = {}
+    for m in pat.finditer(txt):
+        kinds[(m.group(1), m.group(5))] = m
+    for (cmpf, castf), m in kinds.items():
+        key = (cmpf, castf)
+        if key not in _GUARD_LEMMAS:
+            defs = []
+            for fn in (cmpf, castf):
+                dm = re.search(r"^\(define-fun " + re.escape(fn) + r" .*$", txt, re.M)
+                if not dm:
+                    raise Undecided("guard lemma: definition of %s not found" % fn)
+                defs.append(dm.group(0))
+            w = int(m.group(7))
+            fw = int(m.group(9))
+            neq = "(not (= X (_ bv0 %d)))" % w
+            rhs = neq if m.group(2) == "notequal" else "(= X (_ bv0 %d))" % w
+            lemma = "\n".join(defs) + "\n(declare-const X (_ BitVec %d))\n(assert (not (= (%s (%s X (_ bv0 32)) (_ bv0 %d)) %s)))\n(check-sat)\n" % (w, cmpf, castf, fw, rhs)
+            lp = os.path.join(bdir, u.name + ".guardlemma.smt2")
+            open(lp, "w").write(lemma)
+            rc, so, se, dt = sh(["z3-new", "-T:120", lp], timeout=130)
+            os.remove(lp)
+            _GUARD_LEMMAS[key] = so.strip().split("\n")[0] == "unsat"
+        if not _GUARD_LEMMAS[key]:
+            raise Undecided("guard lemma for %s/%s not discharged" % key)
+
+    def sub(m):
+        w = int(m.group(7))
+        return "(not (= %s (_ bv0 %d)))" % (m.group(8), w) if m.group(2) == "notequal" else "(= %s (_ bv0 %d))" % (m.group(8), w)
+    if kinds:
+        txt = pat.sub(sub, txt)
+        u.note = (u.note + "; " if u.note else "") + "fp-zero guards rewritten to integer tests after discharging the equivalence lemma (%d shapes)" % len(kinds)
+    return txt
+
+
 def _inputs_from_model(model):
-    """harness inputs in_* from a z3 model printed for cbmc's SMT encoding"""
+    """harness inputs in_* from z3's (get-value ...) answer for cbmc's SMT encoding"""
     acc = {}
-    for m in re.finditer(r"\(define-fun \|?([^\s|]*?::in_[A-Za-z0-9_]+)(?:![0-9@#]+)*\|? \(\) \(_ BitVec (\d+)\)\s+#([xb])([0-9a-fA-F]+)\)", model):
-        name = m.group(1).split("::")[-1]
-        w = int(m.group(2))
-        v = int(m.group(4), 16 if m.group(3) == "x" else 2)
+    pat = re.compile(r"\(\|[^\s|]*?::(in_[A-Za-z0-9_]+)![0-9@#!]*((?:\[\[[0-9A-Fa-f]+\]\])*)\|\s+#([xb])([0-9a-fA-F]+)\)")
+    for m in pat.finditer(model):
+        # cbmc prints array cell indices in hexadecimal
+        name = m.group(1) + "".join("[%d]" % int(k, 16) for k in re.findall(r"\[\[([0-9A-Fa-f]+)\]\]", m.group(2)))
+        digits = m.group(4)
+        w = len(digits) * (4 if m.group(3) == "x" else 1)
+        v = int(digits, 16 if m.group(3) == "x" else 2)
         acc.setdefault(name, {"binary": format(v, "0%db" % w), "data": str(v), "type": "bv%d" % w})
     return acc
 
